@@ -61,6 +61,12 @@ type c04Flow struct {
 	bindArgs bool
 	// maxDepth: nesting limit of callees analysed in place (0: the default, 3)
 	maxDepth int
+	// seqOnly: the callee of a go statement runs concurrently; what it writes is not an effect of this step of the
+	// sequential history (its writes do not make the tracked state unknown)
+	seqOnly bool
+	// condNode: the branch condition that transfer is being applied to; a test-and-set in it takes effect on the
+	// edges (assume), not before the branch
+	condNode ast.Node
 }
 
 // assume: env refined by "e evaluates to want" (only for the slots that e determines: negations, the operands
@@ -83,6 +89,13 @@ func (f *c04Flow) assume(info *types.Info, e ast.Expr, want bool, env c04Env, de
 			}
 			return env
 		}
+		if path, fv, ok := f.evalRawLoad(info, t, env); ok {
+			if _, known := env[path]; !known {
+				env = env.clone()
+				env[path] = fv == want
+			}
+			return env
+		}
 		if (t.Op == token.EQL || t.Op == token.NEQ) && c04IsBool(info, t.X) && c04IsBool(info, t.Y) {
 			if v, known := f.eval(info, t.Y, env, 0); known {
 				return f.assume(info, t.X, (v == want) == (t.Op == token.EQL), env, depth)
@@ -92,6 +105,9 @@ func (f *c04Flow) assume(info *types.Info, e ast.Expr, want bool, env c04Env, de
 			}
 		}
 	case *ast.CallExpr:
+		if op := f.flagOp(info, t); op != nil {
+			return f.assumeFlagCall(info, op, want, env)
+		}
 		if len(t.Args) == 0 && depth < 3 {
 			if fn := calleeOf(info, t); fn != nil {
 				if fi := f.p.FuncOfObj(fn); fi != nil && fi.Decl.Body != nil && len(fi.Decl.Body.List) == 1 {
@@ -249,6 +265,10 @@ func (f *c04Flow) eval(info *types.Info, e ast.Expr, env c04Env, depth int) (val
 			}
 			return a || b, ka && kb
 		case token.EQL, token.NEQ:
+			if path, fv, ok := f.evalRawLoad(info, t, env); ok {
+				cur, known := env[path]
+				return cur == fv, known
+			}
 			if c04IsBool(info, t.X) && c04IsBool(info, t.Y) {
 				a, ka := f.eval(info, t.X, env, depth)
 				b, kb := f.eval(info, t.Y, env, depth)
@@ -260,6 +280,9 @@ func (f *c04Flow) eval(info *types.Info, e ast.Expr, env c04Env, depth int) (val
 			}
 		}
 	case *ast.CallExpr:
+		if op := f.flagOp(info, t); op != nil {
+			return f.evalFlagCall(info, op, env)
+		}
 		// zero-argument accessor with the body `return <expr>`: only the tracked fields carry over
 		if len(t.Args) == 0 && depth < 3 {
 			if fn := calleeOf(info, t); fn != nil {
@@ -311,7 +334,28 @@ func (f *c04Flow) transfer(info *types.Info, n ast.Node, env c04Env, skip map[*a
 		}
 		delete(out, k)
 	}
+	var goCall *ast.CallExpr
+	if gs, ok := n.(*ast.GoStmt); ok && f.seqOnly {
+		goCall = gs.Call
+	}
 	inspectNoLit(n, func(m ast.Node) bool {
+		if goCall != nil && m == ast.Node(goCall) {
+			// the arguments are evaluated here, the call is not
+			for _, a := range goCall.Args {
+				inspectNoLit(a, func(x ast.Node) bool {
+					if c, ok := x.(*ast.CallExpr); ok && f.kills != nil && !skip[c] {
+						for _, k := range f.kills(c) {
+							if _, ok := out[k]; ok {
+								out = out.clone()
+								delete(out, k)
+							}
+						}
+					}
+					return true
+				})
+			}
+			return false
+		}
 		switch t := m.(type) {
 		case *ast.AssignStmt:
 			for i, l := range t.Lhs {
@@ -344,6 +388,14 @@ func (f *c04Flow) transfer(info *types.Info, n ast.Node, env c04Env, skip map[*a
 				set(t.X, nil)
 			}
 		case *ast.CallExpr:
+			if op := f.flagOp(info, t); op != nil {
+				// an atomic operation on a tracked flag: its own effect, and `&F` does not end the tracking
+				deferred := f.condNode != nil && containsNode(f.condNode, func(x ast.Node) bool { return x == m }) && (op.kind == "cas" || op.kind == "swap")
+				if !deferred {
+					out = f.applyFlagCall(info, op, env, out)
+				}
+				return false
+			}
 			if f.kills != nil && !skip[t] {
 				for _, k := range f.kills(t) {
 					if _, ok := out[k]; ok {
@@ -422,8 +474,15 @@ func (f *c04Flow) explore(g *FG, init c04Env, depth int, active map[*FG]bool, vi
 					})
 				}
 			}
+			f.condNode = nil
+			if i == len(it.b.Nodes)-1 && len(it.b.Succs) == 2 {
+				if cd := g.BranchCond(it.b); cd != nil && cd.Tag == nil && cd.Alts == nil && ast.Node(cd.Expr) == n {
+					f.condNode = n
+				}
+			}
 			if len(subs) == 0 {
 				env = f.transfer(info, n, env, nil)
+				f.condNode = nil
 				continue
 			}
 			skip := map[*ast.CallExpr]bool{}
@@ -449,6 +508,7 @@ func (f *c04Flow) explore(g *FG, init c04Env, depth int, active map[*FG]bool, vi
 			for _, e := range envs {
 				work = append(work, item{it.b, i + 1, f.transfer(info, n, e, skip)})
 			}
+			f.condNode = nil
 			stopped = true
 			break
 		}
@@ -457,7 +517,9 @@ func (f *c04Flow) explore(g *FG, init c04Env, depth int, active map[*FG]bool, vi
 		}
 		succs := it.b.Succs
 		if len(succs) == 0 {
-			if atExit != nil && g.isNormalExit(it.b) {
+			// (the block after the last case of a select without default has no successor: the select waits, it
+			// does not leave the function)
+			if atExit != nil && g.isNormalExit(it.b) && it.b.Kind != cfg.KindSelectAfterCase {
 				atExit(env)
 			}
 			continue
@@ -485,7 +547,18 @@ func (f *c04Flow) explore(g *FG, init c04Env, depth int, active map[*FG]bool, vi
 					} else {
 						succs = succs[1:]
 					}
+					if cd.Tag == nil && f.hasEffectfulFlagOp(info, cd.Expr) {
+						env = f.assume(info, cd.Expr, v, env, 0)
+					}
 				}
+			}
+		}
+		if len(succs) == 2 && len(it.b.Succs) == 2 {
+			// undecided test-and-set: each edge continues with what the operation left behind
+			if cd := g.BranchCond(it.b); cd != nil && cd.Tag == nil && cd.Alts == nil && f.hasEffectfulFlagOp(info, cd.Expr) {
+				work = append(work, item{succs[0], 0, f.assume(info, cd.Expr, true, env, 0)})
+				work = append(work, item{succs[1], 0, f.assume(info, cd.Expr, false, env, 0)})
+				continue
 			}
 		}
 		for _, s := range succs {
